@@ -1,7 +1,8 @@
 """C11 - the named-files area is a versioned, content-addressed, immutable store.
 
 Workload: histories over write_source / add_named_file / remove_named_file /
-restart (new CsvPaths over the same world), directory listings permuted.
+restart (new CsvPaths over the same world) / add_named_file whose copy into the store
+is torn by a disk-full error (then retried), directory listings permuted.
 Oracle: an abstract store  name -> [(sha256, source basename)]  checked after
 every operation through the live instance *and* a fresh one, plus a disk-only
 walk of inputs/named_files."""
@@ -16,7 +17,7 @@ ID = "C11"
 TIERS = {"quick": {"n": 50000, "chunk": 250}, "thorough": {"n": 2000000, "chunk": 2000, "wall_cap": 3300}}
 RULE = (
     "each scenario is a seeded history (3-8 ops, 1 in 8 up to 25) over {write source (5 source paths incl. same basename in two dirs and a name with two dots, 3 fixed contents + fresh ones), "
-    "add_named_file (2 names), remove_named_file, restart}; after every op the store is compared with the abstract model through the live and a fresh instance and by a disk walk. "
+    "add_named_file (2 names), remove_named_file, restart, failing registration (missing source), registration whose copy is torn by ENOSPC after 0/50/100% of the bytes (3 in 4 retried at once)}; after every op the store is compared with the abstract model through the live and a fresh instance and by a disk walk. "
     "A scenario is non-trivial when some name holds >= 2 registrations; distinct = distinct abstract op-class sequences (op kind, name, content class new/current/earlier, basename change, instance age)."
 )
 ASSUMPTIONS = [
@@ -24,7 +25,7 @@ ASSUMPTIONS = [
     "no concurrent writers to the inputs directory (the library documents single-user instances)",
 ]
 REAL = REAL_ALL
-STUB = STUB_ALL
+STUB = STUB_ALL + ["shutil.copy/copy2/copyfile during an add_torn op: writes a prefix of the bytes and raises ENOSPC (disk-full fault)"]
 
 SOURCES = ["d0/a.csv", "d1/a.csv", "d0/b.csv", "d1/c.txt", "d1/r.2024-03.csv"]
 NAMES = ["n0", "n1"]
@@ -37,7 +38,7 @@ def content_bytes(cid):
 def generate(rng, i, tier):
     long = rng.random() < 0.125
     n = rng.randint(9, 25) if long else rng.randint(3, 8)
-    weights = {"write": rng.choice([2, 3, 4]), "add": rng.choice([3, 4, 6]), "remove": rng.choice([0, 1, 1, 2]), "restart": rng.choice([0, 1, 2]), "add_bad": rng.choice([0, 0, 1])}
+    weights = {"write": rng.choice([2, 3, 4]), "add": rng.choice([3, 4, 6]), "remove": rng.choice([0, 1, 1, 2]), "restart": rng.choice([0, 1, 2]), "add_bad": rng.choice([0, 0, 1]), "add_torn": rng.choice([0, 1, 1])}
     kinds = [k for k, w in weights.items() for _ in range(w)]
     srcs = rng.sample(SOURCES, rng.randint(2, 5))
     opsl = []
@@ -60,6 +61,9 @@ def generate(rng, i, tier):
         elif k == "add_bad":
             # a registration that must fail (the source does not exist): the store must be left as it was
             opsl.append({"op": "add_bad", "name": rng.choice(NAMES), "src": rng.choice(["d9/gone.csv", "d0/never-written.csv", "d0"])})
+        elif k == "add_torn":
+            # the copy into the store dies part-way (disk full): the call raises; the caller usually tries again at once
+            opsl.append({"op": "add_torn", "name": rng.choice(NAMES), "src": rng.choice(srcs), "cut": rng.choice([0.0, 0.5, 0.5, 1.0]), "retry": rng.random() < 0.75})
         else:
             opsl.append({"op": "restart"})
     return {"seed": rng.getrandbits(32), "listdir_salt": rng.choice([None, rng.getrandbits(16), rng.getrandbits(16)]), "ops": opsl}
@@ -79,6 +83,51 @@ def reductions(sc):
 
 def _sha(b):
     return hashlib.sha256(b).hexdigest()
+
+
+class _torn_copies:
+    """Disk-full seam: while active, the first shutil copy of a regular file writes only `cut` of the bytes to the
+    destination and raises ENOSPC.  (shutil is the library's only way of bringing a local file into the store.)"""
+
+    NAMES = ("copy", "copy2", "copyfile")
+
+    def __init__(self, cut):
+        self.cut = cut
+        self.state = {"fired": 0}
+
+    def __enter__(self):
+        import errno
+        import shutil
+
+        self.saved = {n: getattr(shutil, n) for n in self.NAMES}
+        st = self.state
+        cut = self.cut
+
+        def make(real):
+            def torn(src, dst, *a, **kw):
+                if st["fired"] or not os.path.isfile(src):
+                    return real(src, dst, *a, **kw)
+                st["fired"] += 1
+                if os.path.isdir(dst):
+                    dst = os.path.join(dst, os.path.basename(src))
+                with open(src, "rb") as f:
+                    b = f.read()
+                with open(dst, "wb") as f:
+                    f.write(b[: int(len(b) * cut)])
+                raise OSError(errno.ENOSPC, "No space left on device (simulated)")
+
+            return torn
+
+        for n, real in self.saved.items():
+            setattr(shutil, n, make(real))
+        return st
+
+    def __exit__(self, *a):
+        import shutil
+
+        for n, real in self.saved.items():
+            setattr(shutil, n, real)
+        return False
 
 
 def _read(p):
@@ -228,6 +277,50 @@ def execute(sc):
                 sp = os.path.join("src", op["src"])
                 if not os.path.isfile(sp) or _read(sp) != data:
                     out.v("source_touched", f"step {step}: source {sp} missing or changed after add_named_file")
+            elif k == "add_torn":
+                if op["src"] not in src_now:
+                    out.log(step, "noop")
+                    continue
+                data = src_now[op["src"]]
+                sha = _sha(data)
+                base = op["src"].split("/")[-1]
+                sp = os.path.join("src", op["src"])
+                raised = None
+                with _torn_copies(op["cut"]) as torn:
+                    try:
+                        with ops.quiet():
+                            cs.file_manager.add_named_file(name=op["name"], path=sp)
+                    except OSError as e:
+                        raised = e
+                if not torn["fired"]:
+                    # nothing was copied (an implementation may rightly skip a version it already holds): no fault was
+                    # injected, so this was an ordinary registration
+                    if raised is not None:
+                        raise raised
+                    out.probe("torn-copy op in which the library copied nothing")
+                    vs = model.setdefault(op["name"], [])
+                    if not vs or (vs[-1][0], vs[-1][1]) != (sha, base):
+                        vs.append((sha, base, data))
+                elif raised is None:
+                    out.v("disk_error_swallowed", f"step {step}: the copy into the store failed with ENOSPC but add_named_file({op['name']}) returned normally")
+                else:
+                    out.fault("torn_copy")
+                vs = model.get(op["name"], [])
+                cls.append(("known" if vs else "unknown") + ("-retry" if op["retry"] else ""))
+                if op["retry"]:
+                    with ops.quiet():
+                        cs.file_manager.add_named_file(name=op["name"], path=sp)
+                    vs = model.setdefault(op["name"], [])
+                    if not vs or (vs[-1][0], vs[-1][1]) != (sha, base):
+                        vs.append((sha, base, data))
+                    out.probe("registration retried after a torn copy")
+                elif op["name"] not in model:
+                    # a failed first registration leaves a half-made home behind; the statement says nothing about it
+                    import shutil
+
+                    shutil.rmtree(os.path.join("inputs", "named_files", op["name"]), ignore_errors=True)
+                if _read(sp) != data:
+                    out.v("source_touched", f"step {step}: source {sp} changed by the failed add_named_file")
             elif k == "remove":
                 if op["name"] not in model:
                     out.log(step, "noop")
@@ -265,6 +358,7 @@ def execute(sc):
                 break
         out.probe("identical re-add", False)
         out.probe("re-add of old bytes", False)
+        out.probe("registration retried after a torn copy", False)
         out.nontrivial = any(len(vs) >= 2 for vs in model.values()) or any("repeat" in c for c in out.sig)
         out.states.append(json.dumps(sorted((n, [(v[0][:6], v[1]) for v in vs]) for n, vs in model.items())))
         out.runs = len(sc["ops"])
